@@ -96,6 +96,14 @@ class MVContext:
             'MVContext.object_names.setter: Object names should be of type str'
         self._attribute_names = value
 
+        # the pattern structures are looked up (and compared, and written to files) by their own names:
+        # keep them in line with the new attribute names
+        pattern_structures = getattr(self, '_pattern_structures', None)
+        if pattern_structures is not None and len(pattern_structures) == len(value):
+            for ps, name in zip(pattern_structures, value):
+                ps._name = name
+            self._pattern_types = {name: type(ps) for ps, name in zip(pattern_structures, value)}
+
     @property
     def pattern_structures(self) -> List[PS.AbstractPS]:
         """A list of pattern structures kept in a context"""
